@@ -78,6 +78,26 @@ def generate(run_seed, tier):
                                                                        "ordinal": rh.randint(0, 25), "when": rh.choice(["before", "after"])}})
             else:
                 steps.append({"do": "compute", "r": r})
+        # twin pairs: two members that differ in exactly one field of one op (same kind, same source). Plan one, then
+        # observe the other: a cache whose key misses that field hands the first one's value to the second
+        by_src = {}
+        for op in recipe["ops"]:
+            srcs = W.op_srcs(op)
+            if len(srcs) == 1 and op["id"] in ids:
+                by_src.setdefault((op["op"], srcs[0]), []).append(op)
+        pairs = []
+        for group in by_src.values():
+            for i_ in range(len(group)):
+                for j_ in range(i_ + 1, len(group)):
+                    a_, b_ = group[i_], group[j_]
+                    diff = [k for k in set(a_) | set(b_) if k not in ("id", "knob_names", "src_nparts") and a_.get(k) != b_.get(k)]
+                    if len(diff) == 1:
+                        pairs.append((a_["id"], b_["id"]))
+        rh.shuffle(pairs)
+        for a_, b_ in pairs[:3]:
+            first, second = (a_, b_) if rh.random() < 0.5 else (b_, a_)
+            steps.append({"do": rh.choice(["optimize", "compute"]), "r": first, "fuse": True, "keep": True})
+            steps.append({"do": "observe", "r": second, "kind": rh.choice(["parts", "parts", "divisions", "optimized_name", "result"]), "fuse": True})
         # always end with observations so that earlier steps matter
         for _ in range(3):
             steps.append({"do": "observe", "r": rh.choice(ids), "kind": rh.choice(KINDS), "fuse": True})
